@@ -66,7 +66,7 @@ theorem T1_leaf_sizes_bounded (sepf : Nat → Nat → Option Nat) (KB : Nat) (hs
       ∀ l, OutLeaf.new l ∈ out →
         l.ents ≠ [] ∧ bodyOf l.ents ≤ BODY ∧ (MERGE ≤ bodyOf l.ents ∨ l.cutoff = none) ∧
           (∀ e ∈ l.ents, l.sep ≤ e.key) ∧ (∀ c, l.cutoff = some c → ∀ e ∈ l.ents, e.key < c) := by
-  obtain ⟨out, log, e, _, _, h3⟩ := runWorker_spec sepf KB hsep db cs lo hdb hcs hfirst
+  obtain ⟨out, log, e, _, _, h3, _⟩ := runWorker_spec sepf KB hsep db cs lo hdb hcs hfirst
   exact ⟨out, log, e, h3⟩
 
 /-- the produced leaves of the bulk split and of the split are even fuller: at least
@@ -88,6 +88,17 @@ theorem T1_try_build_leaves_rightsized (sepf : Nat → Nat → Option Nat) (KB :
   have := BODY_eq
   have := MAXV_eq
   exact ⟨a, by rcases b with b | b; exact Or.inl b; exact Or.inr (by omega)⟩
+
+/-- **T1.leaf_separators_chain** — over the whole stage: in the new tree (untouched old leaves and produced leaves, left
+to right) every leaf's separator is at most each of its keys and all its keys are below the separator of the NEXT leaf
+(`OutUpTo`): the separators handed to `handle_new_leaf` are correct bounds between neighbours, also across merges,
+skipped leaves and leaves that disappear. -/
+theorem T1_leaf_separators_chain (sepf : Nat → Nat → Option Nat) (KB : Nat) (hsep : SepOK sepf KB)
+    (db : List (DbLeaf V)) (cs : List (Nat × Option (V × Bool))) (lo : Nat)
+    (hdb : DbOK KB db) (hcs : ChOK KB lo cs) (hfirst : ∀ l, db.head? = some l → l.sep ≤ lo) :
+    ∃ out log, runWorker sepf db cs = some (out, log) ∧ ∃ s, OutUpTo out s := by
+  obtain ⟨out, log, e, _, _, _, h4⟩ := runWorker_spec sepf KB hsep db cs lo hdb hcs hfirst
+  exact ⟨out, log, e, h4⟩
 
 /-- **T1.leaf_separators_bound** — one `digest` on a state satisfying the updater's invariant: the separators handed
 to `handle_new_leaf` form a chain starting at `separator()`: every leaf's separator is at most its first (every) key, all
